@@ -662,6 +662,13 @@ func UnfoldBooleanAction(unfoldOpts BooleanUnfold) RewriteAction {
 			return []ast.Option{option}
 		}
 
+		// the unfolded options take no argument: an option with other arguments
+		// than the boolean (the key of an indexed assignment, ...) can not be
+		// unfolded without leaving them undeclared.
+		if len(option.Args) > 1 {
+			return []ast.Option{option}
+		}
+
 		intoType := option.Assignments[0].Path.Last().Type
 
 		if !intoType.IsScalar() || intoType.Scalar.ScalarKind != ast.KindBool {
